@@ -1,5 +1,6 @@
 import Lean.Data.Json
 import Momtrop.Model.Sample
+import Momtrop.Model.Gamma
 /-!
 # Driver: the model instantiated at `Float`, behind a one-JSON-line-in / one-line-out protocol.
 
@@ -258,6 +259,38 @@ def opSample (j : Json) : Except String Json := do
       ("vTrop", fl r.vTrop), ("u", fl r.u), ("v", fl r.v), ("jac", fl r.jacobian),
       ("reads", nat r.reads), ("meta", mdJ)]
 
+/-! ### gamma -/
+
+def exitTag : GExit → String
+  | .nearOne => "nearOne" | .tinyB => "tinyB" | .largeA => "largeA"
+  | .converged k => s!"converged:{k}" | .exhausted => "exhausted"
+
+def opGamma (j : Json) : Except String Json := do
+  let a ← getF j "a"; let p ← getF j "p"
+  let n := (getNat j "n").toOption.getD 50
+  let tol := (getF j "tol").toOption.getD 5.0
+  let ext : GammaExt Float := statrsExt
+  match invGammaImpl ext a p n tol with
+  | none => return Json.mkObj [("status", Json.str "panic")]
+  | some (r, e) =>
+    let st := match invGammaLr ext a p n tol with
+      | some (some _) => "ok" | some none => "err" | none => "panic"
+    return Json.mkObj [("status", Json.str st), ("r", fl r), ("raw", fl r), ("exit", Json.str (exitTag e))]
+
+def opStatrs (j : Json) : Except String Json := do
+  let f ← getStr j "fn"
+  let a ← getF j "a"
+  let x := (getF j "x").toOption.getD 0.0
+  let r : Option Float := match f with
+    | "gamma" => some (statrsGamma a)
+    | "ln_gamma" => some (statrsLnGamma a)
+    | "gamma_lr" => statrsGammaLr a x
+    | "gamma_ur" => statrsGammaUr a x
+    | _ => none
+  match r with
+  | some v => return Json.mkObj [("status", Json.str "ok"), ("r", fl v)]
+  | none => return Json.mkObj [("status", Json.str "panic")]
+
 /-! ### vector / scalar primitives -/
 
 def opVec (j : Json) : Except String Json := do
@@ -310,6 +343,8 @@ def handle (j : Json) : Except String Json := do
   | "vpoly" => opVpoly j
   | "momenta" => opMomenta j
   | "sample" => opSample j
+  | "gamma" => opGamma j
+  | "statrs" => opStatrs j
   | _ => throw s!"unknown op {op}"
 
 end Drv
